@@ -3,15 +3,10 @@ CONSTANTS
   Targets <- T2
   Order <- Order2
   MaxProbes = 2
-  MaxClaims = 2
+  MaxClaims = 1
   BuildUnderLock = TRUE
-  NotifyAlways = TRUE
-  CoalesceRebuilds = FALSE
+  NotifyAlways = FALSE
+  CoalesceRebuilds = TRUE
 INVARIANTS
-  TypeOK
   R_Settled
-  R_Claim
-  R_NoneJustified
-  R_Mutex
-  R_ReadsFresh
 CHECK_DEADLOCK FALSE
